@@ -18,7 +18,11 @@ def run(chk):
         for name in COUNTERS:
             files += indfam.record(chk, yv, "c06long", 1 if quick else 3, 2, 1200 if quick else 4000, only=name)
             # more configurations on shorter regime streams (parameter orders the defaults never have: over_zone_period > period, ...)
-            files += indfam.record(chk, yv, "c06cfg", 1 if quick else 3, 6, 700 if quick else 1500, only=name)
+            os.environ["YV_CFG_WIDE"] = "1"
+            try:
+                files += indfam.record(chk, yv, "c06cfg", 1 if quick else 3, 9, 600 if quick else 1500, only=name)
+            finally:
+                os.environ.pop("YV_CFG_WIDE", None)
     finally:
         os.environ.pop("YV_LONG_REGIMES", None)
     indfam.validate(chk, files, "signals", "signals")
